@@ -56,6 +56,8 @@ def labels(case, R, stats):
         stats.label("zero_column")
     if case["m"] == R.rank:
         stats.label("no_redundancy")
+    if case.get("offset"):
+        stats.label("large_abs_terms")
 
 
 def check_solution(tag, case, A, C, R, ans, stats, homogenised=False):
@@ -104,8 +106,12 @@ def check_solution(tag, case, A, C, R, ans, stats, homogenised=False):
     if e > tol:
         fails.append("%s.x: |x-x*|=%.3g tol %.3g (d=%d, S=%s)" % (tag, e, tol, R.d, case["minx"]))
     # sum of squares
+    # the reported sum is v'Pv of residuals that carry the rounding of x: d(v'Pv) = 2 sqrt(v'Pv |P|) dv + |P| dv^2 with
+    # dv = 1e-11 kappa (|A||x| + |b|) - NOT relative to b'Pb (a formula like b'Pb - x'A'Pb passes such a test whatever it loses)
     vpv = float(r @ P @ r)
-    tol = 1e-9 * (float(b @ P @ b) + 1.0) * kappa
+    nP = float(np.linalg.norm(P, 2))
+    dv = 1e-11 * kappa * (nA * np.linalg.norm(x) + np.linalg.norm(b) + 1.0) * np.sqrt(max(R.m, 1))
+    tol = 2 * np.sqrt(max(R.rtr, 0.0) * nP) * dv + nP * dv * dv + 1e-12 * (R.rtr + 1.0)
     e = abs(rtr - vpv)
     stats.ratio(tag + ".rtr", e / tol)
     if e > tol:
